@@ -54,7 +54,9 @@ def valid_response(rnd, gen):
         return ",".join([host, serial, "AirTouch4", aid]).encode()
     name = rnd.choice(["Home", "My, House", "a,b,,c", "Büro", "", "AirTouch5", "x" * 40,
                        # text is text: line feeds, tabs, blanks at either end
-                       "Line\nFeed", "Home\n", "\r\nHome", "tab\there", " padded ", "\n"])
+                       "Line\nFeed", "Home\n", "\r\nHome", "tab\there", " padded ", "\n",
+                       # the owner's choice of words is not the protocol's business
+                       "Home,AirTouch5,Upstairs", ",AirTouch5,", "AirTouch4,1"])
     return ",".join([host, serial, "AirTouch5", aid, name]).encode()
 
 
